@@ -171,9 +171,9 @@ c15_layout!(c02_c14_c15_q_layout_6x10_c, FONT_6X10, 9, [("\n!!", "\n!!"), ("! \r
 c15_layout!(c02_c14_c15_q_layout_6x10_d, FONT_6X10, 9, [("", ""), ("!!", "!!")]);
 // skeletons with an empty LAST line did not finish within the quick cap (600 s): thorough tier
 #[cfg(feature = "thorough")]
-c15_layout!(c02_c14_c15_t_layout_6x10_e, FONT_6X10, 9, [("!\n", "!\n"), ("!!", "!!")]);
+c15_layout!(c02_c14_c15_t_layout_6x10_e, FONT_6X10, 9, [("!\n", "!\n")]);
 #[cfg(feature = "thorough")]
-c15_layout!(c02_c14_c15_t_layout_6x10_f, FONT_6X10, 9, [("\r\n", "\n"), ("!!", "!!")]);
+c15_layout!(c02_c14_c15_t_layout_6x10_f, FONT_6X10, 9, [("\r\n", "\n")]);
 
 /// the layout claims (incl. C02: every call area inside Text::bounding_box()) for one built-in font per
 /// distinct metric tuple, on a two-line skeleton
